@@ -5,6 +5,10 @@ package dht
 import (
 	"context"
 	"fmt"
+
+	"github.com/libp2p/go-libp2p/core/host"
+	"github.com/libp2p/go-libp2p/core/network"
+
 	"sort"
 	"strings"
 	"testing"
@@ -26,6 +30,7 @@ type c01cfg struct {
 	knowledge  string   // "full", "chain", "star"
 	seeds      []int
 	keyCell    string
+	diversity  bool // configure the routing-table IP diversity filter (the query then also filters responses by IP group)
 }
 
 var c01Cells = []string{"000", "001", "010", "100", "110", "111"}
@@ -165,9 +170,14 @@ func c01Run(x *vmc.X, cfg vmc.Cfg) {
 	w, ids := c01World(c)
 	key := kid.KeyWithPrefix("v", c.keyCell, 0)
 	filtered := w.Filtered
-	l, err := newLH(x, w, lhParams{k: c.k, alpha: c.a, beta: c.b, opts: []Option{
-		QueryFilter(func(_ any, ai peer.AddrInfo) bool { return ai.ID != filtered }),
-	}})
+	opts := []Option{QueryFilter(func(_ any, ai peer.AddrInfo) bool { return ai.ID != filtered })}
+	var hostOpts func(h host.Host) []Option
+	if c.diversity {
+		hostOpts = func(h host.Host) []Option {
+			return []Option{RoutingTablePeerDiversityFilter(NewRTPeerDiversityFilter(h, 3, 3))}
+		}
+	}
+	l, err := newLH(x, w, lhParams{k: c.k, alpha: c.a, beta: c.b, opts: opts, hostOpts: hostOpts})
 	if err != nil {
 		x.Failf("C01/setup", "%v", err)
 		return
@@ -176,6 +186,9 @@ func c01Run(x *vmc.X, cfg vmc.Cfg) {
 	var seedIDs []peer.ID
 	for _, i := range c.seeds {
 		seedIDs = append(seedIDs, ids[i])
+		if c.diversity {
+			l.h.AddConn(ids[i], network.DirOutbound, nil) // the diversity filter reads a member's address from its connection
+		}
 	}
 	table := l.seed(seedIDs)
 	seeds := sim.SortByDistance(table, key)
@@ -431,3 +444,28 @@ func processedHeard(w *sim.World, k int, resp *pb.Message) []peer.ID {
 }
 
 var _ = context.Background
+
+// ---- C10 part "lookup": over-long responses with and without the IP diversity filter ----------------
+
+func c10LookupConfigs(tier string) []vmc.Cfg {
+	var out []vmc.Cfg
+	for _, div := range []bool{false, true} {
+		for _, k := range []int{2, 3} {
+			for _, beh := range []string{sim.BFlood, sim.BFloodFront, sim.BDup, sim.BAll} {
+				for pos := 0; pos < 4; pos++ {
+					as := []string{sim.BHonest, sim.BHonest, sim.BHonest, sim.BHonest}
+					as[pos] = beh
+					for _, sd := range [][]int{{0}, {3}, {0, 3}} {
+						c := c01cfg{n: 4, k: k, a: 2, b: 1, behaviours: as, knowledge: "full", seeds: sd, keyCell: "000", diversity: div}
+						out = append(out, vmc.Cfg{Name: fmt.Sprintf("lookup/diversity-%v/k%d/%s/seeds%v", div, k, strings.Join(as, ","), sd), Data: c})
+					}
+				}
+			}
+		}
+	}
+	return out
+}
+
+func TestVMC_C10lookup(t *testing.T) {
+	vmc.Main(t, vmc.Harness{ID: "C10", Configs: c10LookupConfigs, Run: c01Run, Bubble: true})
+}
